@@ -529,6 +529,8 @@ func RunGuarded(name string) string {
 	return s
 }
 
+const qTreeRich = "SELECT a FROM t WHERE id = 1 OR 1 = 1 AND SLEEP(5) > 0 AND b = LOAD_FILE('/etc/passwd') AND c = pg_sleep(1)"
+
 const qInjRich = "SELECT a FROM t WHERE id = 1 OR 1=1 AND SLEEP(5) > 0 UNION SELECT NULL, NULL FROM information_schema.columns; DROP TABLE t -- x\n/* y */ SELECT LOAD_FILE('/etc/passwd')"
 
 // OpByName finds an op.
@@ -593,6 +595,23 @@ var extraOps = []Op{
 	{Name: "literalscanner-scan", F: func() string {
 		sc := &security.Scanner{MinSeverity: security.SeverityLow}
 		t, err := gosqlx.Parse(qInj)
+		if err != nil {
+			return "ERR: " + err.Error()
+		}
+		return scanText(sc.Scan(t))
+	}},
+	// the tree scan over call payloads (time-delay and file / command functions) besides the tautology
+	{Name: "literalscanner-scan-rich", F: func() string {
+		sc := &security.Scanner{MinSeverity: security.SeverityLow}
+		t, err := gosqlx.Parse(qTreeRich)
+		if err != nil {
+			return "ERR: " + err.Error()
+		}
+		return scanText(sc.Scan(t))
+	}},
+	{Name: "newscanner-scan-rich", F: func() string {
+		sc := security.NewScanner()
+		t, err := gosqlx.Parse(qTreeRich)
 		if err != nil {
 			return "ERR: " + err.Error()
 		}
